@@ -303,7 +303,7 @@ def check_worklist(idx: Index, rep: Report) -> None:
                 if isinstance(c.func, ast.Attribute) and attr_chain(c.func.value) in ("self._stack", "self._map") and c.func.attr in ("append", "pop", "clear", "insert", "extend", "remove", "update", "setdefault", "popitem", "reverse", "sort"):
                     writes = True
             helper_of_primitives = name.startswith("_") and not name.startswith("__") and all(
-                caller in allowed or not any(isinstance(c_.func, ast.Attribute) and c_.func.attr == name and unparse(c_.func.value) in ("self", "Worklist") for c_ in calls_in(d_.raw_node, local=False))
+                caller in allowed or not any(isinstance(c_.func, ast.Attribute) and c_.func.attr == name and unparse(c_.func.value) in ("self", "Worklist") for c_ in calls_in(d_.as_raw().node, local=False))
                 for caller, defs_ in cls.methods.items() for d_ in defs_
             )
             if writes and name not in allowed and helper_of_primitives:
